@@ -180,6 +180,33 @@ def _json_size(v):
     return 1
 
 
+def field_group_hits(ws, groups):
+    """Workload probe (not a verdict): for each group of field names, does some state row of semantic_p3/s2space_p3*
+    carry ALL of them in its `fields` dict? -> list of booleans. Tells whether a project really made lian merge
+    callee-added fields into an object that already had fields of its own."""
+    import pandas as pd
+    d = os.path.join(ws, "semantic_p3")
+    keysets = set()
+    if os.path.isdir(d):
+        for n in sorted(os.listdir(d)):
+            if n.startswith("s2space_p3.bundle"):
+                try:
+                    df = pd.read_feather(os.path.join(d, n))
+                except Exception:
+                    continue
+                if "fields" not in df.columns:
+                    continue
+                for f in df["fields"]:
+                    if isinstance(f, str) and len(f) > 2:
+                        try:
+                            v = json.loads(f)
+                        except ValueError:
+                            continue
+                        if isinstance(v, dict):
+                            keysets.add(frozenset(v))
+    return [any(set(g) <= ks for ks in keysets) for g in groups]
+
+
 # ---------------------------------------------------------------------------------------------------
 # comparison
 
